@@ -150,7 +150,8 @@ func runC12(r *Report, tier string) {
 				setterMissing = true
 			}
 		} else {
-			okP := pv.Op == "call" && pv.S == shortFn(E.setter) && len(pv.Args) == 2 && pv.Args[0].String() == "$2.Protected"
+			_, bi := setterRoles(E.setter)
+			okP := pv.Op == "call" && pv.S == shortFn(E.setter) && len(pv.Args) == 2 && bi >= 0 && pv.Args[bi].String() == "$2.Protected"
 			op.check(okP, pv.String(), "Headers.Protected = "+pv.String())
 		}
 		uv := projectField(hdr, "Unprotected")
@@ -357,6 +358,14 @@ func checkHashTable(r *Report, rule string) {
 func c12Setter(r *Report, E *envRoles) {
 	P := r.P
 	fn := E.setter
+	// the payload and the base map by type, whatever their position (the
+	// setter may be a method of the payload)
+	pi, bi := setterRoles(fn)
+	if pi < 0 {
+		undecidedf("anchor not found: payload parameter of the hash-envelope header setter")
+	}
+	PP := "$" + itoa(int64(pi))
+	_ = bi
 	l258, l259, l260 := P.mustConst("HeaderLabelPayloadHashAlgorithm"), P.mustConst("HeaderLabelPayloadPreimageContentType"), P.mustConst("HeaderLabelPayloadLocation")
 	np := 0
 	for _, p := range P.allPaths(fn) {
@@ -422,7 +431,7 @@ func c12Setter(r *Report, E *envRoles) {
 		})
 		// the payload is a pointer or a value parameter
 		isField := func(v *Term, f string) bool {
-			return v != nil && (v.String() == "*$1."+f || v.String() == "$1."+f)
+			return v != nil && (v.String() == "*"+PP+"."+f || v.String() == PP+"."+f)
 		}
 		if why == "" {
 			if v, ok := puts[l258]; !ok || !isField(v, "HashAlgorithm") {
@@ -441,7 +450,7 @@ func c12Setter(r *Report, E *envRoles) {
 		}
 		if why == "" {
 			v, put := puts[l259]
-			given := hasCond("binop<==>(*$1.PreimageContentType, nil)", false) || hasCond("binop<==>($1.PreimageContentType, nil)", false)
+			given := hasCond("binop<==>(*"+PP+".PreimageContentType, nil)", false) || hasCond("binop<==>("+PP+".PreimageContentType, nil)", false)
 			switch {
 			case put != given:
 				why = fmt.Sprintf("label 259 put:%v but content type non-nil on this path:%v", put, given)
@@ -451,13 +460,13 @@ func c12Setter(r *Report, E *envRoles) {
 		}
 		if why == "" {
 			v, put := puts[l260]
-			given := hasCond("binop<==>(*$1.Location, \"\")", false) || hasCond("binop<==>($1.Location, \"\")", false)
+			given := hasCond("binop<==>(*"+PP+".Location, \"\")", false) || hasCond("binop<==>("+PP+".Location, \"\")", false)
 			{
 				pfs := factSet{}
 				for _, c := range p.conds {
 					pfs.add(c)
 				}
-				if pfs.holdsNonEmpty(mustPat("*$1.Location")) || pfs.holdsNonEmpty(mustPat("$1.Location")) {
+				if pfs.holdsNonEmpty(mustPat("*"+PP+".Location")) || pfs.holdsNonEmpty(mustPat(PP+".Location")) {
 					given = true
 				}
 			}
@@ -711,7 +720,7 @@ func c12RuleTable(r *Report, E *envRoles) {
 			}
 			predTrue := func(class string) bool {
 				for _, c := range p.conds {
-					if c.Val && c.Pred.Op == "call" && classes[c.Pred.S] == class && len(c.Pred.Args) == 1 && c.Pred.Args[0].eq(V) {
+					if name, arg := P.predCallOf(c.Pred); c.Val && arg != nil && classes[name] == class && arg.eq(V) {
 						return true
 					}
 				}
@@ -909,4 +918,19 @@ func (P *Prog) hashTableFunc() *ssa.Function {
 	}
 	undecidedf("anchor not found: Algorithm -> crypto.Hash table")
 	return nil
+}
+
+// setterRoles: parameter indexes of the hash-envelope header setter by type:
+// the payload (HashEnvelopePayload, by value or pointer) and the base map.
+func setterRoles(fn *ssa.Function) (payload, base int) {
+	payload, base = -1, -1
+	for i, p := range fn.Params {
+		switch {
+		case isNamed(deref(p.Type()), cosePath, "HashEnvelopePayload"):
+			payload = i
+		case isNamed(p.Type(), cosePath, "ProtectedHeader"):
+			base = i
+		}
+	}
+	return
 }
